@@ -274,7 +274,7 @@ RAFT_PKG = "github.com/ipfs/ipfs-cluster/consensus/raft"
 RAFT_TESTS = ["TestConsensusPin", "TestConsensusUnpin", "TestConsensusUpdate", "TestConsensusAddPeer",
               "TestConsensusRmPeer", "TestConsensusLeader", "TestRaftLatestSnapshot"]
 ROOT_PKG = "github.com/ipfs/ipfs-cluster"
-ROOT_TESTS = ["TestClustersPin", "TestClustersUnpin", "TestClustersPeerAdd", "TestClustersPeerRemove"]
+ROOT_TESTS = ["TestClustersPin", "TestClustersPeerAdd", "TestClustersPeerJoin", "TestClustersPeerRemoveReallocsPins"]
 
 
 def observer_present(ctx):
@@ -397,7 +397,7 @@ def repo_tests_stage(ctx):
     raws = run_repo_tests(ctx, build_test_binary(ctx, RAFT_PKG, "raftpkg"), RAFT_TESTS, "raft", par=4)
     if not ctx.quick():
         raws.update(run_repo_tests(ctx, build_test_binary(ctx, ROOT_PKG, "rootpkg"), ROOT_TESTS, "root",
-                                   extra_args=["-consensus", "raft", "-loglevel", "CRITICAL"], par=2, timeout=900))
+                                   extra_args=["-consensus", "raft", "-loglevel", "CRITICAL", "-npins", "30"], par=2, timeout=900))
     trace = os.path.join(ctx.work, "c01_repotests_trace.ndjson")
     per_test = {}
     all_lines = []
